@@ -4,9 +4,33 @@
 import json
 HOOK_COMMITS = ["7a2bc63e192ef884eef2988f4018970c6e5aef21"]
 CHECKS = {
+ "C01": dict(cat="model_checking", tech="small-scope exhaustive enumeration of table b-tree shapes x rowid sets x layouts x column lists; differential against real SQLite on files it wrote",
+   text="Every table b-tree shape within bounds (<=3 cells/leaf, <=3 children/interior page, depth<=4, n<=7 rows quick / 9 thorough, plus depth-4 shapes) x 3 rowid sets (sequential, gapped, int64 boundary values) x 2 physical layouts (separator = max-of-left or in the gap, shuffled cells with free blocks, scattered overflow chains, reversed page order) of the T1 rowid table (rowid alias, short rows from ALTER TABLE ADD COLUMN with DEFAULT, every storage class, spilled payloads) and every shape of the T2 WITHOUT ROWID tree, each read with every ordered column list of length 0..3 over columns/rowid/oid/_rowid_/unknown; all page sizes; SQLite-written files (bulk insert to depth 3+, delete, update, VACUUM, auto/incremental vacuum, ADD COLUMN) compared after every statement.",
+   note="Trusted: dbgen (bound to the format by SQLite integrity_check + typed SELECT comparison on every image, counted in traces_validated_against_impl), SQLite 3.40.1 as oracle. Shapes beyond the bounds and fan-outs >3 only through the SQLite-written files.", ref="5/C01"),
+ "C02": dict(cat="model_checking", tech="small-scope exhaustive enumeration of index b-tree shapes x layouts; oracle = builder's logical order + real SQLite ORDER BY on the same bytes",
+   text="Every index b-tree shape within bounds (n<=10 entries quick / 13 thorough plus depth-4 shapes; entries in interior cells; duplicates across pages; spilled index payloads) for T1's (b NOCASE DESC, c) and (c RTRIM) indexes, T2's secondary index (key omits part of the PK), autoindexes, a partial index, page-size family; IndexedSelect through every listed index must equal the logical index order mapped to table rows and SQLite's ORDER BY with the index_xinfo collations/directions; plus SQLite-written files with DESC/collated/unique/partial/expression indexes and WITHOUT ROWID after every statement.",
+   note="Trusted: dbgen + conformance, SQLite 3.40.1. An index sqlittle does not list is not judged here (C10).", ref="5/C02"),
+ "C03": dict(cat="model_checking", tech="small-scope exhaustive enumeration of (index image, key) pairs; oracle = reference comparator (conformance-checked against SQLite) + SQLite WHERE ... IS ? on the same bytes",
+   text="For every index image of C02, every listed index / index-backed PK / WITHOUT ROWID PK and every key built from every prefix of every stored entry with the last column replaced by neighbour values (+-1, adjacent floats, int/real twins, case swap, trailing space, shorter/longer text), NULL, other classes and the empty key: IndexedSelectEq/PKSelect must return exactly the entries equal under SQLite's comparison in index order, never an error; Go key types once each.",
+   note="Trusted: ref.Compare (validated against SQLite's dense_rank over the C11 grid on every C11 run), dbgen.", ref="5/C03"),
+ "C04": dict(cat="model_checking", tech="small-scope exhaustive enumeration of table shapes x probe rowids",
+   text="Every table b-tree shape of C01 x every probe rowid (present, both neighbours, middle and last value of every gap = both separator styles, int64 min/max, 0, +-1) through SelectRowid, PKSelect on the alias PK and Table.Rowid, judged by the builder's logical rows.",
+   note="Trusted: dbgen + conformance.", ref="5/C04"),
+ "C11": dict(cat="model_checking", tech="exhaustive enumeration of all pairs/triples of a value grid x collations x directions against real SQLite's ranking",
+   text="All ordered pairs of a 109-value grid (every storage class, int64/float64 boundaries, case/whitespace/NUL/non-ASCII text, blobs) x 3 collations x ASC/DESC through db.Search both ways and db.Equals, judged by SQLite's dense_rank() and index order; all triples for transitivity; multi-column keys of every prefix length x 8 DESC masks.",
+   note="Trusted: SQLite 3.40.1 ranking. NaN and invalid UTF-8 are outside the grid.", ref="5/C11"),
+ "C13": dict(cat="model_checking", tech="small-scope exhaustive enumeration of index shapes x cut keys (pairs for ranges) against an independent comparator",
+   text="Every index b-tree shape of C02 x every cut key (every prefix of every entry, neighbours of the last column, below first, above last, one column longer than the records): ScanMin = suffix, ScanEq = equal run, ScanRange over every ordered pair of (thinned) cut keys = filtered slice of the same handle's full scan.",
+   note="Trusted: ref.Compare (validated in C11), dbgen. Keys carry the index's own collation/DESC flags.", ref="5/C13"),
+ "C14": dict(cat="model_checking", tech="exhaustive enumeration of payload lengths / serial types / varint lengths, built by an independent encoder and by real SQLite",
+   text="Every value length 0..3*pagesize as table-cell and index-cell payload at page size 512 (and 1024 thorough), threshold neighbourhoods for the other page sizes and the first 3 overflow page counts, contiguous and scattered chains; every serial type incl. integer width boundaries and non-minimal widths; varints of every length in rowids, payload/header sizes and serial types; records of up to 300 columns.",
+   note="Trusted: ref encoder + dbgen, bound by SQLite reading the same values (conformance) and by SQLite writing the same values.", ref="5/C14"),
  "C15": dict(cat="model_checking", tech="exhaustive enumeration of every header byte x value x {open, re-read history} against a reference header predicate; conformance against real SQLite",
    text="Every single-byte header mutant (100 offsets x 256 values) on a valid base image per page size is judged by a three-valued reference predicate written from the property text (must-reject / must-accept / silent), at Open and on the re-read path of a long-lived handle (valid -> mutated -> valid history, every public read operation at each step); plus WAL/UTF-16/legacy databases written by real SQLite. Exhaustive in the stated space, so any change to a header check that the property pins is found.",
    note="Trusted: the reference predicate (from the file-format document), the in-memory pager having the file pager's semantics, SQLite 3.40.1 as oracle for the base content. Multi-byte mutations are not enumerated.", ref="5/C15"),
+ "C17": dict(cat="model_checking", tech="environment-answer enumeration: the callback says stop at every row k of every scan on every shape image",
+   text="Every table and index shape image x every stoppable scan (SelectDone, driver result set closed after k rows, Table.Scan, Index.Scan, ScanMin/ScanEq/ScanRange) x every k=1..result size: exactly the first k rows, exactly k callbacks, nil error, lock/unlock balanced.",
+   note="Lock release is observed on the in-memory pager here; on the real file pager and /proc/locks in C06.", ref="5/C17"),
 }
 NOT_YET = {}
 def main():
